@@ -180,6 +180,12 @@ func polyDeviation(deviator int, kind string) func(node int, op *types.Operation
 					res.ResultMsgs[i].Data, _ = json.Marshal(req)
 					continue
 				}
+				if kind == "same-key-empty-polynomial" {
+					// the member is there but empty ("PubPolyBz":""), where the 0.1.4 form has none
+					req.PubPolyBz = []byte{}
+					res.ResultMsgs[i].Data, _ = json.Marshal(req)
+					continue
+				}
 				suite := oracle.Suite()
 				kr, err := dkg.LoadPubPolyBLSKeyringFromBytes(suite, req.PubPolyBz)
 				if err != nil {
@@ -250,7 +256,7 @@ func c02(tier string, args []string) int {
 			continue
 		}
 		for dev := 0; dev < nt.n; dev++ {
-			for _, kind := range []string{"same-key-other-polynomial", "other-key", "other-key-same-polynomial", "same-key-no-polynomial"} {
+			for _, kind := range []string{"same-key-other-polynomial", "other-key", "other-key-same-polynomial", "same-key-no-polynomial", "same-key-empty-polynomial"} {
 				if r.TimeUp() {
 					break
 				}
